@@ -4,6 +4,7 @@ Fl(n, s, v) == [newer |-> n, stateful |-> s, variant |-> v]
 Flav_plain == {Fl(FALSE, FALSE, "plain")}
 Flav_alias == {Fl(FALSE, FALSE, "alias")}          \* every package also declares `type A1 = T1` (C07: ErrIgnore from GenerateAliasType)
 Flav_two == {Fl(FALSE, FALSE, "plain"), Fl(TRUE, TRUE, "shadow")}
+Flav_twoA == Flav_two \cup Flav_alias
 Flav_shadow == {Fl(FALSE, FALSE, "plain"), Fl(FALSE, TRUE, "shadow"), Fl(TRUE, FALSE, "shadow"), Fl(TRUE, TRUE, "big"), Fl(FALSE, FALSE, "split")}
 Flav_shadowQ == {Fl(FALSE, TRUE, "shadow"), Fl(TRUE, TRUE, "big"), Fl(FALSE, FALSE, "split")}
 Flav_stateful == {Fl(FALSE, TRUE, "plain"), Fl(TRUE, TRUE, "plain")}
